@@ -16,7 +16,7 @@ CLAIMED = {
                 note='str.upper per character is a parameter; OMEN level content is C10'),
     'C07': dict(design='§6 C07', technique='Lean 4 proof (writer/loader round trip over code-point strings) + generated check_valid table + exhaustive Unicode table validation + real writer/3 loaders',
                 text='Round-trip theorems for the guesser and scorer loaders over every clean value; key lemma decided over the rejected-code-point table extracted from check_valid; line-boundary/whitespace tables validated against the interpreter over all code points each run. A sorted clean list file loads into a well-formed column (C07_trained_column_wf: trainer -> file -> guesser over binary64); a saved folder holds exactly the files the config lists, for every previous content (C07_folder_is_filename_list), and each config section takes its list from the counter the writer saves there (C07_config_sources, generated from config_file.py / save_pcfg_data.py).',
-                note='codec internals, float repr round trip, configparser/json are runtime; C07_last_listed_file_wins (Model/LoadMulti.lean, ld.multi stream), C07_trained_folder_loads'),
+                note='codec internals, float repr round trip, configparser/json are runtime; C07_last_listed_file_wins (Model/LoadMulti.lean, ld.multi stream), C07_trained_folder_loads; C07_omen_files_load: the OMEN files of a trained ruleset load and the loaded tables answer every look-up like toTables (Model/OmenFiles.lean), C07_find_cp_reads_lookups, C07_omen_level_out_of_range'),
     'C08': dict(design='§6 C08', technique='Lean 4 proof (restore walk = roots of the sub-system of nodes ≤ saved probability) + trace validation from every cut point',
                 text='Resume emits exactly the nodes of probability ≤ the saved value, once each, in order; nothing lost, repeats only tied; proved for all grids / cut values / tie patterns; real restore compared with the model at cut points.',
                 note='C08_resume_binary64 for doubles (saved minimum 0.0 discharged); session file I/O (configparser float round-trip) trusted; multi-cycle histories reduce to the single saved float; C08_trained_resume (same, for trained grids)'),
@@ -54,11 +54,11 @@ CLAIMED = {
                 text='printed ++ remaining(files left) = remaining(start) for every schedule; option removed after the restored level; real sessions quit at each j and resumed, concatenation = uninterrupted stream.',
                 note='pickle/configparser round trips trusted; quit inside the very last Markov pre-terminal is a recorded known finding (C15_last_unit_loss shows the excluded point in the model). The state machine yields before every call of the OMEN generator (the end-of-level window is a schedule); C15_session_files_injective + C15_file_name_expressions: different session names never share a .sav / .omn file (name expressions regenerated from source); the program itself is quit by a typed q inside a Markov level and resumed; every .sav/.omn expression of the guesser regenerated (C15_file_name_expressions); quit session named <tag>.sav'),
     'C11': dict(design='§6 C11', technique='Lean 4 proof (scorer = trainer = levelOf over loaded tables; with C10: guesser emits s at L iff trainer level L) + correspondence of the three real implementations',
-                text='find_omen_level, OmenScorer.parse and the real MarkovCracker agree with each other and with the model on training, perturbed and boundary strings; guesser side proved exact in C10.',
-                note='smoothing (log/floor) modelled not verified: levels are inputs'),
-    'C18': dict(design='§6 C18', technique='Lean 4 proof (levelKeyspace = number of emitted guesses; recursion = tree count; memo = recursion; listing spec) + count comparison with the real generator',
-                text='Saved keyspace = number of guesses per level for the real generator and the model; saved probability = (count/N)/keyspace.',
-                note='levels too large to enumerate are covered by the model only'),
+                text='find_omen_level, OmenScorer.parse and the real MarkovCracker agree with each other and with the model on training, perturbed and boundary strings; guesser side proved exact in C10. C11_guesser_from_files: the same statement for the tables the model of the guesser\'s load_rules builds from the records the trainer writes to IP/CP/LN.level (no closed form in between).',
+                note='smoothing (log/floor) modelled not verified: levels are inputs; the loader model (Model/OmenFiles.lean) is compared with the real load_rules on every trained ruleset (of.load: rows per level, dict insertion order)'),
+    'C18': dict(design='§6 C18, §11.8', technique='Lean 4 proof (levelKeyspace = number of emitted guesses; recursion = tree count; memo = recursion; listing spec; third pass and saved probability over the trainer and generator models) + the whole real trainer compared bit for bit with the model + count comparison with the real generator',
+                text='Saved keyspace = number of guesses per level for the real generator and the model, also over the tables the loader model builds from the files (C18_keyspace_from_files). C18_saved_probability: every line of pcfg_omen_prob is (training passwords the generator emits at the level / N) / (strings it emits there); C18_counted_level_listed, C18_mass_le_one, C18_prob_file_sorted_binary64.',
+                note='levels too large to enumerate are covered by the model only; omen_pws_per_level.txt and pcfg_omen_prob.txt of a whole run_trainer are compared line by line and bit by bit with Model/OmenProb.lean (ot.third / ot.probs)'),
     'C19': dict(design='§6 C19', technique='Lean 4 proof (readLine: hex = plain, count = repeats, skips, no leak, fold) + reader correspondence + trained-ruleset comparison',
                 text='Theorems for all lines / passwords / counts with int(), hex-decode and encode as parameters; real read_password sequences compared with the model; rulesets trained from the three encodings compared file by file.',
                 note='codec internals and int() are runtime parameters; C19_only_totals_reach_the_ruleset (reader attribute uses regenerated); zero-count lines'),
